@@ -25,21 +25,31 @@ logging.disable(logging.CRITICAL)
 T0 = datetime(2000, 1, 1)
 
 
+_UNIT_US = 3600 * 10**6  # length of one abstract time unit ("hour") in microseconds
+
+
+def set_time_unit(microseconds=3600 * 10**6):
+    """all harness times are multiples of an abstract unit; the default unit is one hour. Checks switch it per case to re-run the
+    same lattice at other scales (microseconds, weeks)"""
+    global _UNIT_US
+    _UNIT_US = int(microseconds)
+
+
+def time_unit_seconds():
+    return Fraction(_UNIT_US, 10**6)
+
+
 def H(n):
-    """n hours (int, float or Fraction) as timedelta"""
-    if isinstance(n, Fraction):
-        return timedelta(seconds=int(n * 3600)) if (n * 3600).denominator == 1 else timedelta(
-            seconds=float(n * 3600)
-        )
-    return timedelta(hours=n)
+    """n abstract units (int, float or Fraction) as timedelta"""
+    return timedelta(microseconds=round(Fraction(n) * _UNIT_US))
 
 
 def hrs(t):
-    """datetime -> hours since T0 as exact Fraction (None passes)"""
+    """datetime -> units since T0 as exact Fraction (None passes)"""
     if t is None:
         return None
     d = t - T0
-    return Fraction(d.days * 86400 * 10**6 + d.seconds * 10**6 + d.microseconds, 3600 * 10**6)
+    return Fraction(d.days * 86400 * 10**6 + d.seconds * 10**6 + d.microseconds, _UNIT_US)
 
 
 def fh(t):
